@@ -2,12 +2,14 @@
    option, unit, list, prod, sumbool, sumor map to OCaml's own types; N,
    positive, Z, nat stay inductive datatypes.  No Extract Constant of ours. *)
 From Coq Require Import ExtrOcamlBasic.
-From BFS Require Import Base.Bytes Path.GoPath Path.Iterate Sort.Order Layers.Call Layers.HiddenList.
+From BFS Require Import Base.Bytes Path.GoPath Path.Iterate Sort.Order Layers.Call Layers.HiddenList Backup.History Backup.Triggers.
 Extraction Language OCaml.
 Extraction "model.ml"
-  str_eqb clean join2 dir base is_abs rel
+  str_eqb clean join2 dir GoPath.base is_abs rel
   less sort_most sort_least sort_strings
   iterate_dir_tree cands chain
   prefix_path prefixfs_call prefixfs_readlink_result prefixfs_file_name prefixfs_info_name
   volumefs_call volumefs_readlink_result hiddenfs_call hidden_norm
-  is_hidden is_parent_of_hidden dir_contains to_abs_symlink hidden_list_calls.
+  is_hidden is_parent_of_hidden dir_contains to_abs_symlink hidden_list_calls
+  step cfg_base cfg_backup init_world init_dir init_file init_link with_crash with_faults
+  dump_fs dump_infos dump_trace mkConfig mkFault triggers.
